@@ -789,7 +789,13 @@ def tet_buffer_overflow(e, mesh):
     if not full:
         return False, "buffers not full"
     nvp = nverts(mesh)
-    orc = R.StepOracle(np.asarray(mesh.p)[:, :nvp], np.asarray(mesh.t)[:4], np.array(p[:, :nv]), np.array(t[:, :nt]))
+    cells = np.array(t[:, :nt])
+    if nt + nm > t.shape[1] and all(k in L for k in ("t1", "t2", "t3", "tnew")):
+        # raised while storing the second halves: the first halves already replaced the marked cells
+        cells = np.hstack((cells, np.vstack((L["t2"], L["t1"], L["t3"], L["tnew"]))))
+    if cells.min() < 0 or cells.max() >= nv:
+        return False, "partial subdivision refers to points that do not exist"
+    orc = R.StepOracle(np.asarray(mesh.p)[:, :nvp], np.asarray(mesh.t)[:4], np.array(p[:, :nv]), cells)
     if orc.degenerate_children().size:
         return False, "partial subdivision has degenerate cells"
     if (orc.locate() < 0).any():
